@@ -1,4 +1,5 @@
 import DicomModel.Model.PersonName
+import DicomModel.Lemmas.PersonName
 /-
 C17 — Person names round-trip between text and components.
 
@@ -10,177 +11,6 @@ reachable through the builder) denotes the same DICOM name as an absent one and 
 All 32 presence patterns are covered by one proof over component lists of any length.
 -/
 namespace Dicom.PN
-
-/-! ### split / join -/
-
-theorem split_nocaret {s : List Char} (h : '^' ∉ s) : splitCaret s = [s] := by
-  induction s with
-  | nil => rfl
-  | cons c cs ih =>
-    have hc : c ≠ '^' := fun e => h (by simp [e])
-    have hcs : '^' ∉ cs := fun m => h (by simp [m])
-    simp [splitCaret, hc, ih hcs]
-
-theorem split_append {s : List Char} (h : '^' ∉ s) (r : List Char) :
-    splitCaret (s ++ '^' :: r) = s :: splitCaret r := by
-  induction s with
-  | nil => simp [splitCaret]
-  | cons c cs ih =>
-    have hc : c ≠ '^' := fun e => h (by simp [e])
-    have hcs : '^' ∉ cs := fun m => h (by simp [m])
-    simp [splitCaret, hc, ih hcs]
-
-def NoCaret (c : Comp) : Prop := ∀ s, c = some s → '^' ∉ s
-
-theorem noCaret_getD {c : Comp} (h : NoCaret c) : '^' ∉ c.getD [] := by
-  cases c with
-  | none => simp
-  | some s => exact h s rfl
-
-/-- splitting the joined text gives back the component texts (absent ↦ empty). -/
-theorem split_join : ∀ (cs : List Comp), cs ≠ [] → (∀ c ∈ cs, NoCaret c) →
-    splitCaret (joinCaret cs) = cs.map (·.getD [])
-  | [], h, _ => absurd rfl h
-  | [c], _, hc => by
-    simp [joinCaret, split_nocaret (noCaret_getD (hc c (by simp)))]
-  | c :: c' :: r, _, hc => by
-    have h1 := noCaret_getD (hc c (by simp))
-    have ih := split_join (c' :: r) (by simp) (fun x hx => hc x (by simp [hx]))
-    simp only [joinCaret, split_append h1, ih, List.map_cons]
-
-/-! ### trim is the identity on the produced text -/
-
-theorem dropWhile_id {p : Char → Bool} {l : List Char}
-    (h : ∀ x, l.head? = some x → p x = false) : l.dropWhile p = l := by
-  cases l with
-  | nil => rfl
-  | cons a t => simp [List.dropWhile, h a rfl]
-
-theorem trim_id {s : List Char} (hh : ∀ x, s.head? = some x → isWs x = false)
-    (hl : ∀ x, s.getLast? = some x → isWs x = false) : trim s = s := by
-  unfold trim
-  rw [dropWhile_id hh, dropWhile_id (by simpa using hl), List.reverse_reverse]
-
-theorem compOk_noCaret {c : Comp} (h : CompOk c = true) : NoCaret c := by
-  intro s e; subst e
-  simp [CompOk, strOk] at h
-  exact h.1.1
-
-theorem isWs_caret : isWs '^' = false := by decide
-
-theorem compOk_head {c : Comp} (h : CompOk c = true) :
-    ∀ x, (c.getD []).head? = some x → isWs x = false := by
-  intro x hx
-  cases c with
-  | none => simp at hx
-  | some s =>
-    simp [CompOk, strOk] at h
-    cases s with
-    | nil => simp at hx
-    | cons a t => simp at hx; subst hx; simpa using h.1.2
-
-theorem compOk_last {c : Comp} (h : CompOk c = true) :
-    ∀ x, (c.getD []).getLast? = some x → isWs x = false := by
-  intro x hx
-  cases c with
-  | none => simp at hx
-  | some s =>
-    simp [CompOk, strOk] at h
-    simp only [Option.getD_some] at hx
-    have := h.2
-    simp [hx] at this
-    exact this
-
-theorem join_head : ∀ (cs : List Comp), (∀ c ∈ cs, CompOk c = true) →
-    ∀ x, (joinCaret cs).head? = some x → isWs x = false
-  | [], _, x, hx => by simp [joinCaret] at hx
-  | [c], h, x, hx => compOk_head (h c (by simp)) x (by simpa [joinCaret] using hx)
-  | c :: c' :: r, h, x, hx => by
-    simp only [joinCaret] at hx
-    cases hc : c.getD [] with
-    | nil => simp [hc] at hx; subst hx; exact isWs_caret
-    | cons a t =>
-      simp [hc] at hx; subst hx
-      exact compOk_head (h c (by simp)) a (by simp [hc])
-
-theorem join_last : ∀ (cs : List Comp), (∀ c ∈ cs, CompOk c = true) →
-    ∀ x, (joinCaret cs).getLast? = some x → isWs x = false
-  | [], _, x, hx => by simp [joinCaret] at hx
-  | [c], h, x, hx => compOk_last (h c (by simp)) x (by simpa [joinCaret] using hx)
-  | c :: c' :: r, h, x, hx => by
-    have ih := join_last (c' :: r) (fun y hy => h y (by simp [hy]))
-    simp only [joinCaret] at hx
-    rw [List.getLast?_append] at hx
-    cases hj : (joinCaret (c' :: r)).getLast? with
-    | none =>
-      simp [List.getLast?_cons, hj] at hx
-      subst hx; exact isWs_caret
-    | some y =>
-      simp [List.getLast?_cons, hj] at hx
-      subst hx; exact ih y hj
-
-/-! ### trailing absent components -/
-
-theorem strip_spec (cs : List Comp) :
-    ∃ k, cs = stripTrailingNone cs ++ List.replicate k none := by
-  refine ⟨(cs.reverse.takeWhile (·.isNone)).length, ?_⟩
-  have h := List.takeWhile_append_dropWhile (p := fun c : Comp => c.isNone) (l := cs.reverse)
-  have h2 : cs = (cs.reverse.dropWhile (·.isNone)).reverse ++ (cs.reverse.takeWhile (·.isNone)).reverse := by
-    rw [← List.reverse_append, h, List.reverse_reverse]
-  have h3 : (cs.reverse.takeWhile (·.isNone)).reverse
-      = List.replicate (cs.reverse.takeWhile (·.isNone)).length none := by
-    rw [List.eq_replicate_iff]
-    refine ⟨by simp, ?_⟩
-    intro b hb
-    have := List.mem_takeWhile_imp (List.mem_reverse.mp hb)
-    cases b <;> simp_all
-  unfold stripTrailingNone
-  rw [← h3]; exact h2
-
-theorem strip_subset (cs : List Comp) : ∀ c ∈ stripTrailingNone cs, c ∈ cs := by
-  intro c hc
-  obtain ⟨k, hk⟩ := strip_spec cs
-  rw [hk]; exact List.mem_append_left _ hc
-
-theorem getElem?_join_strip (cs : List Comp) (i : Nat) :
-    (stripTrailingNone cs)[i]?.join = cs[i]?.join := by
-  obtain ⟨k, hk⟩ := strip_spec cs
-  generalize stripTrailingNone cs = A at hk
-  subst hk
-  by_cases hi : i < A.length
-  · rw [List.getElem?_append_left hi]
-  · have hi' : A.length ≤ i := Nat.le_of_not_lt hi
-    rw [List.getElem?_append_right hi', List.getElem?_eq_none hi']
-    simp [List.getElem?_replicate]
-    split <;> simp
-
-/-- the last element left by `stripTrailingNone` is a present component -/
-theorem strip_last (cs : List Comp) : (stripTrailingNone cs).getLast? ≠ some none := by
-  unfold stripTrailingNone
-  rw [List.getLast?_reverse]
-  cases h : cs.reverse.dropWhile (·.isNone) with
-  | nil => simp
-  | cons a t =>
-    have := List.head_dropWhile_not (fun c : Comp => c.isNone) cs.reverse (by simp [h])
-    simp [h] at this
-    simp
-    intro e; subst e; simp at this
-
-/-! ### components of the parsed text -/
-
-theorem component_map (A : List Comp) (i : Nat) :
-    component (A.map (·.getD [])) i = normEmpty (A[i]?.join) := by
-  unfold component
-  rw [List.getElem?_map]
-  cases A[i]? with
-  | none => rfl
-  | some c =>
-    cases c with
-    | none => rfl
-    | some s => cases s <;> rfl
-
-theorem component_empty (i : Nat) : component [[]] i = none := by
-  cases i <;> simp [component]
 
 /-- General form over component lists of any length: the `i`-th component parsed from the written
 text is the `i`-th component (absent beyond the end), present-but-empty read as absent. -/
